@@ -192,6 +192,43 @@ fn main() {
                 let _ = writeln!(out, "{}.blanks.{}\t{:?}\t{}", i, n, t, outcome(r));
             }
         }
+        // (1e) documents in which one node is referenced from two places (only library values can share
+        // nodes), and every size around the powers of two: a shortcut that only exists where the
+        // input is taken over as it is (specialized) or only under sync must not change an outcome
+        if i % 9 == 0 {
+            let shared_vals = [serde_json::json!([1, 2]), serde_json::json!({"k": [1]}), serde_json::json!("s"), serde_json::json!(3), serde_json::json!(null), serde_json::json!([])];
+            let node = Rcvar::new(var_of(&shared_vals[rng.below(shared_vals.len())]));
+            let mut m = std::collections::BTreeMap::new();
+            m.insert("a".to_string(), node.clone());
+            m.insert("b".to_string(), node.clone());
+            m.insert("c".to_string(), Rcvar::new(Variable::Array(vec![node.clone(), node.clone()])));
+            let var = Variable::Object(m);
+            let rc = Rcvar::new(var.clone());
+            let text = ["a <= b", "a == b", "a < b", "a != b", "a >= b", "c[0] <= c[1]", "c[0] > c[1]", "[a, b] | [0] >= [1]", "{x: @, y: @} | x <= y", "{x: a, y: a} | x < y", "c[?@ <= a]", "a > a"][rng.below(12)];
+            let e = jmespath::compile(text).unwrap();
+            let _ = writeln!(out, "{}.shared.variable\t{}\t{}", i, text, outcome(e.search(var.clone())));
+            let _ = writeln!(out, "{}.shared.variable_ref\t{}\t{}", i, text, outcome(e.search(&var)));
+            let _ = writeln!(out, "{}.shared.rcvar\t{}\t{}", i, text, outcome(e.search(rc.clone())));
+            let _ = writeln!(out, "{}.shared.rcvar_ref\t{}\t{}", i, text, outcome(e.search(&rc)));
+            let n = [0usize, 1, 15, 16, 17, 31, 32, 33, 63, 64, 65, 127, 128, 129, 255, 256, 257, 511, 512, 513, 1023, 1024, 1025][rng.below(23)];
+            let sized = serde_json::json!({
+                "xs": (0..n as i64).rev().collect::<Vec<i64>>(),
+                "s": (0..n).map(|k| ["a", "é", "日"][k % 3]).collect::<String>(),
+                "o": (0..n).map(|k| (format!("k{:04}", k), serde_json::json!(k))).collect::<serde_json::Map<String, Value>>(),
+                "ss": (0..n).map(|k| format!("w{}", k % 7)).collect::<Vec<String>>(),
+            });
+            let text = ["length(xs)", "length(s)", "length(o)", "length(keys(o))", "sort(xs)[0]", "reverse(s) | length(@)", "join('', ss) | length(@)", "xs[*] | length(@)", "max(xs)", "length(values(o))",
+                        "sort_by(xs, &@)[-1]", "length(to_array(xs))", "sum(xs)", "length(ss[?@ == 'w1'])", "length(merge(o, o))"][rng.below(15)];
+            let e = jmespath::compile(text).unwrap();
+            let var = var_of(&sized);
+            let rc = Rcvar::new(var.clone());
+            let _ = writeln!(out, "{}.size{}.value\t{}\t{}", i, n, text, outcome(e.search(sized.clone())));
+            let _ = writeln!(out, "{}.size{}.value_ref\t{}\t{}", i, n, text, outcome(e.search(&sized)));
+            let _ = writeln!(out, "{}.size{}.variable\t{}\t{}", i, n, text, outcome(e.search(var.clone())));
+            let _ = writeln!(out, "{}.size{}.variable_ref\t{}\t{}", i, n, text, outcome(e.search(&var)));
+            let _ = writeln!(out, "{}.size{}.rcvar\t{}\t{}", i, n, text, outcome(e.search(rc.clone())));
+            let _ = writeln!(out, "{}.size{}.rcvar_ref\t{}\t{}", i, n, text, outcome(e.search(&rc)));
+        }
         // (2) scalar inputs of every specially-handled type
         let se = jmespath::compile(scalar_exprs[rng.below(scalar_exprs.len())]).unwrap();
         let pick = |rng: &mut Rng, min: i128, max: i128| -> i128 {
